@@ -505,6 +505,171 @@ func routing(name string, alphabet []int, maxLen int, thorough bool) *explore.Sc
 	}
 }
 
+// ---------------------------------------------------------------- phase C: events between build operations
+
+type growCase struct {
+	Masks []int  `json:"masks"`
+	Build int    `json:"build"`
+	New   int    `json:"new_mask"`
+	Op    op     `json:"op"` // how the new handler (instance index len(Masks)) is added
+	Kind  int    `json:"kind"`
+	Entry string `json:"entry"`
+}
+
+// runGrow: build, fire an event (all handlers forward), add one more handler, fire again;
+// both deliveries must match the model of the list as it is at that moment.
+func runGrow(gc growCase) (string, string) {
+	rec := &probes.Recorder{}
+	masks := append(append([]int{}, gc.Masks...), gc.New)
+	pl := netty.NewPipeline()
+	inst, bases := newInstances(masks, rec)
+	for _, b := range bases {
+		for k := 0; k < probes.NKinds; k++ {
+			b.Act[k] = probes.Forward
+		}
+	}
+	n := len(gc.Masks)
+	switch gc.Build % 2 {
+	case 0:
+		pl.AddLast(inst[:n]...)
+	case 1:
+		for i := n - 1; i >= 0; i-- {
+			pl.AddFirst(inst[i])
+		}
+	}
+	tr := mock.NewTransport("t")
+	ch := netty.NewChannel()(1, context.Background(), pl, tr, netty.AsyncExecutor())
+	netty.VerifAttachChannel(pl, ch)
+	model := make([]int, n)
+	for i := range model {
+		model[i] = i
+	}
+	fire := func() []int {
+		rec.Visits = rec.Visits[:0]
+		msg := []byte("payload")
+		ev := &struct{ x int }{1}
+		switch {
+		case gc.Kind == probes.KWrite && gc.Entry == "channel":
+			ch.Write(msg)
+		case gc.Kind == probes.KWrite && gc.Entry == "tailctx":
+			pl.ContextAt(pl.Size() - 1).Write(msg)
+		case gc.Kind == probes.KWrite:
+			pl.FireChannelWrite(msg)
+		case gc.Kind == probes.KEvent && gc.Entry == "channel":
+			ch.Trigger(ev)
+		case gc.Kind == probes.KEvent && gc.Entry == "headctx":
+			pl.ContextAt(0).Trigger(ev)
+		case gc.Kind == probes.KEvent:
+			pl.FireChannelEvent(ev)
+		case gc.Kind == probes.KActive:
+			pl.FireChannelActive()
+		case gc.Kind == probes.KRead:
+			pl.FireChannelRead(msg)
+		}
+		var got []int
+		for _, v := range rec.Visits {
+			if v.Kind == gc.Kind {
+				got = append(got, v.H.ID)
+			}
+		}
+		return got
+	}
+	want := func() []int {
+		var w []int
+		for _, id := range model {
+			if masks[id]>>gc.Kind&1 == 1 {
+				w = append(w, id)
+			}
+		}
+		if gc.Kind == probes.KWrite {
+			for i, j := 0, len(w)-1; i < j; i, j = i+1, j-1 {
+				w[i], w[j] = w[j], w[i]
+			}
+		}
+		return w
+	}
+	desc := func(stage string, got, w []int) string {
+		return fmt.Sprintf("pipeline masks %v (build %d), %s via %s: %s visited %v, model %v (new handler mask %d added by %v)", gc.Masks, gc.Build, probes.KindNames[gc.Kind], gc.Entry, stage, got, w, gc.New, gc.Op)
+	}
+	if got, w := fire(), want(); !eqInts(got, w) {
+		return "route-before-growth/" + probes.KindNames[gc.Kind], desc("first delivery", got, w)
+	}
+	o := gc.Op
+	o.Hs = []int{n}
+	applyReal(pl, o, inst)
+	model = applyModel(model, o)
+	if k, m := checkStructure(pl, inst, model); k != "" {
+		return "structure-after-events/" + k, m
+	}
+	if got, w := fire(), want(); !eqInts(got, w) {
+		return "route-after-growth/" + probes.KindNames[gc.Kind] + "/" + gc.Entry, desc("delivery after adding a handler", got, w)
+	}
+	return "", ""
+}
+
+func growth(alphabet []int, maxLen int) *explore.Scenario {
+	return &explore.Scenario{
+		Name:   fmt.Sprintf("routing after growth(%d types,len<=%d)", len(alphabet), maxLen),
+		Shards: 8,
+		Enum: func(c *explore.EnumCtx) {
+			inRun(func() {
+				var shapes [][]int
+				var rec func(cur []int)
+				rec = func(cur []int) {
+					shapes = append(shapes, append([]int{}, cur...))
+					if len(cur) == maxLen {
+						return
+					}
+					for _, m := range alphabet {
+						rec(append(cur, m))
+					}
+				}
+				rec(nil)
+				type ke struct {
+					kind  int
+					entry string
+				}
+				kes := []ke{{probes.KWrite, "pipeline"}, {probes.KWrite, "channel"}, {probes.KWrite, "tailctx"}, {probes.KEvent, "pipeline"}, {probes.KEvent, "channel"}, {probes.KEvent, "headctx"}, {probes.KActive, "pipeline"}, {probes.KRead, "pipeline"}}
+				for si, sh := range shapes {
+					if !c.Mine() {
+						continue
+					}
+					var ops []op
+					ops = append(ops, op{Kind: "first"}, op{Kind: "last"})
+					for pos := -1; pos < len(sh)+2; pos++ {
+						ops = append(ops, op{Kind: "at", Pos: pos})
+					}
+					for _, nm := range alphabet {
+						for _, o := range ops {
+							for _, k := range kes {
+								if c.Expired() {
+									return
+								}
+								gc := growCase{Masks: sh, Build: si, New: nm, Op: o, Kind: k.kind, Entry: k.entry}
+								key, msg := runGrow(gc)
+								c.Case(fmt.Sprint(gc), true, func() any { return gc })
+								c.Count(0, 2)
+								if key != "" {
+									c.Fail(key, msg, gc)
+								}
+							}
+						}
+					}
+				}
+			})
+		},
+		Replay: func(c *explore.EnumCtx, desc json.RawMessage) {
+			var gc growCase
+			json.Unmarshal(desc, &gc)
+			inRun(func() {
+				if k, m := runGrow(gc); k != "" {
+					c.Fail(k, m, gc)
+				}
+			})
+		},
+	}
+}
+
 // admission: a handler implementing none of the interfaces is rejected by every Add*.
 func admission() *explore.Scenario {
 	return &explore.Scenario{
@@ -550,15 +715,15 @@ func build(tier string) []*explore.Scenario {
 		all = append(all, m)
 	}
 	if tier == "thorough" {
-		return []*explore.Scenario{structureBFS(5), routing("routing(11 types,len<=4)", eleven, 4, true), routing("routing(63 types,len<=2)", all, 2, true), admission()}
+		return []*explore.Scenario{structureBFS(5), routing("routing(11 types,len<=4)", eleven, 4, true), routing("routing(63 types,len<=2)", all, 2, true), growth(eleven, 3), admission()}
 	}
-	return []*explore.Scenario{structureBFS(4), routing("routing(11 types,len<=3)", eleven, 3, false), routing("routing(63 types,len<=2)", all, 2, false), admission()}
+	return []*explore.Scenario{structureBFS(4), routing("routing(11 types,len<=3)", eleven, 3, false), routing("routing(63 types,len<=2)", all, 2, false), growth(eleven, 2), admission()}
 }
 
 func main() {
 	explore.Main(explore.Spec{
 		Property:    "C03",
-		Rule:        "(A) breadth-first search over all build sequences (AddFirst/AddLast/AddHandler at every legal position, 1-2 handlers per call, 3 handler instances with repetition) to depth 4 (thorough 5): each successor is built by replaying the sequence on a fresh real pipeline; states are deduplicated by the handler list read through the public API in both directions; every transition is compared with a slice model (Size, IndexOf, LastIndexOf, ContextAt, both traversals). (B) for every pipeline shape over handler types implementing subsets of the six interfaces (11 types x length<=3(4), all 63 types x length<=2), built three different ways: every event kind x entry point (pipeline Fire*, Channel.Write/Trigger, ctx.Write/ctx.Trigger from every position) x forwarding bit-vector against the model's filtered head->tail / tail->head order, context identity, payload identity, write-to-channel and close-on-unhandled-exception effects. distinct = distinct canonical states / distinct cases",
+		Rule:        "(A) breadth-first search over all build sequences (AddFirst/AddLast/AddHandler at every legal position, 1-2 handlers per call, 3 handler instances with repetition) to depth 4 (thorough 5): each successor is built by replaying the sequence on a fresh real pipeline; states are deduplicated by the handler list read through the public API in both directions; every transition is compared with a slice model (Size, IndexOf, LastIndexOf, ContextAt, both traversals). (B) for every pipeline shape over handler types implementing subsets of the six interfaces (11 types x length<=3(4), all 63 types x length<=2), built three different ways: every event kind x entry point (pipeline Fire*, Channel.Write/Trigger, ctx.Write/ctx.Trigger from every position) x forwarding bit-vector against the model's filtered head->tail / tail->head order, context identity, payload identity, write-to-channel and close-on-unhandled-exception effects. (C) events between build operations: build a shape, deliver an event, add one more handler (AddFirst/AddLast/AddHandler at every position), deliver again - both deliveries against the model of the list at that moment. distinct = distinct canonical states / distinct cases",
 		Assume:      []string{"AddFirst(h1,h2) is defined as AddFirst(h1) followed by AddFirst(h2) (the code's documented loop), i.e. the model mirrors each call's stated composition", "sequential (single goroutine) use as the property requires"},
 		Build:       build,
 		QuickBudget: 0,
